@@ -149,6 +149,24 @@ Theorem effect_atf o ls i k x ls' : text_effect o ls (OAtf i k x) = Ok ls' ->
   ls' = insert_at k x ls /\ atf_ok o ls i k x = true.
 Proof. unfold text_effect. destruct (atf_ok o ls i k x); [intros H; inversion H; auto|discriminate]. Qed.
 
+(* append_to_family's index arithmetic (child case, auto_indent_width 1): the index is directly after the target's
+   last descendant -- after the target, after EVERY descendant, and no further (so the new line lands inside the family
+   and splits no descendant run) *)
+Theorem atf_child_index_iff ps i a b k :
+  atf_child_index ps i a b = Some k <-> b = S a /\ k = S (family_endpoint ps i).
+Proof.
+  unfold atf_child_index. destruct (Nat.eqb_spec b (S a)) as [E|E].
+  - split; [intros H; inversion H; auto|intros [_ ->]; reflexivity].
+  - split; [discriminate|intros [H _]; contradiction].
+Qed.
+Theorem atf_child_index_in_family ps i a b k : WFmap ps -> atf_child_index ps i a b = Some k ->
+  i < k /\ k = S (family_endpoint ps i) /\ (forall x, In x (all_children ps i) -> x < k).
+Proof.
+  intros W H. apply atf_child_index_iff in H. destruct H as [_ ->].
+  destruct (family_endpoint_spec ps i W) as [A [_ C]].
+  split; [apply le_n_S in C; exact C|]. split; [reflexivity|]. intros x Hx. apply A in Hx. apply le_n_S in Hx. exact Hx.
+Qed.
+
 (* delete removes exactly the line and its descendants (descendants = transitive closure of the links, C03) *)
 Theorem delete_removes_family o ls i j x : i < length ls ->
   forall ls', text_effect o ls (ODelete i) = Ok ls' ->
